@@ -265,8 +265,10 @@ impl AdvancePositions {
 
         let num_opens = positions.len();
 
-        // Build IB: set bit at each unique position
-        let ib_num_words = text_len.div_ceil(64);
+        // Build IB: set bit at each unique position.
+        // A node can start at text_len (an empty value at EOF, e.g. `a:`), so
+        // allocate one extra bit beyond text_len, as `EndPositions` does.
+        let ib_num_words = (text_len + 1).div_ceil(64);
         let mut ib_words = vec![0u64; ib_num_words];
 
         // Build advance bitmap: set bit when position changes
